@@ -81,12 +81,12 @@ func TestC04CacheChild(t *testing.T) {
 }
 
 type fsOp struct {
-	kind string // open | write | rename | unlink | mkdir
-	path string
-	to   string
-	data []byte
+	kind  string // open | write | rename | unlink | mkdir
+	path  string
+	to    string
+	data  []byte
 	trunc bool
-	fd   int
+	fd    int
 }
 
 var straceStr = regexp.MustCompile(`"((?:\\x[0-9a-f]{2})*)"`)
